@@ -153,3 +153,43 @@ impl VxDisp for VStr { open spec fn disp(&self) -> Seq<u8> { self@ } #[verifier:
 impl VxDisp for &VStr { open spec fn disp(&self) -> Seq<u8> { (**self)@ } #[verifier::external_body] fn vx_disp(&self) -> (r: VStr) { unimplemented!() } }
 impl VxDisp for u16 { open spec fn disp(&self) -> Seq<u8> { dec(*self) } #[verifier::external_body] fn vx_disp(&self) -> (r: VStr) { unimplemented!() } }
 pub fn vx_as_bytes<'a>(s: &'a VStr) -> (r: &'a [u8]) ensures r@ == s@ { s.as_bytes() }
+
+// ---- pieces of a string: str::split / split_whitespace and the iterator idioms used on them ----
+pub open spec fn first_occ_at(s: Seq<u8>, p: Seq<u8>, i: int) -> bool { occurs_at(s, p, i) && forall|j: int| 0 <= j < i ==> !occurs_at(s, p, j) }
+pub open spec fn first_occ(s: Seq<u8>, p: Seq<u8>) -> int { if exists|i: int| first_occ_at(s, p, i) { choose|i: int| first_occ_at(s, p, i) } else { -1 } }
+// str::split(pattern) for a non-empty pattern: cut at every occurrence, left to right, non-overlapping; n occurrences give n+1 pieces
+pub open spec fn split_spec(s: Seq<u8>, p: Seq<u8>) -> Seq<Seq<u8>> decreases s.len() {
+    let i = first_occ(s, p);
+    if p.len() == 0 || i < 0 || i + p.len() > s.len() { seq![s] } else { seq![s.subrange(0, i)] + split_spec(s.subrange(i + p.len(), s.len() as int), p) }
+}
+// str::split_whitespace: the maximal runs of non-white-space characters, in order (Unicode White_Space; uninterpreted)
+pub uninterp spec fn ws_tokens(s: Seq<u8>) -> Seq<Seq<u8>>;
+pub open spec fn nonempty_of(ls: Seq<Seq<u8>>) -> Seq<Seq<u8>> { ls.filter(|l: Seq<u8>| l.len() > 0) }
+pub open spec fn views_of(v: Seq<VStr>) -> Seq<Seq<u8>> { Seq::new(v.len(), |i: int| v[i]@) }
+pub struct VPieces<'a> { pub ghost items: Seq<Seq<u8>>, pub _p: std::marker::PhantomData<&'a ()> }
+impl VStr {
+    #[verifier::external_body]
+    pub fn split<'a>(&'a self, p: &VStr) -> (r: VPieces<'a>) ensures r.items == split_spec(self@, p@) { unimplemented!() }
+    #[verifier::external_body]
+    pub fn split_whitespace<'a>(&'a self) -> (r: VPieces<'a>)
+        ensures r.items == ws_tokens(self@), forall|i: int| 0 <= i < r.items.len() ==> (#[trigger] r.items[i]).len() > 0
+    { unimplemented!() }
+}
+impl<'a> VPieces<'a> {
+    #[verifier::external_body]
+    pub fn next(&mut self) -> (r: Option<&'a VStr>)
+        ensures old(self).items.len() == 0 ==> r is None && final(self).items == old(self).items,
+                old(self).items.len() > 0 ==> r is Some && r->Some_0@ == old(self).items[0] && str_wf(r->Some_0@) && final(self).items == old(self).items.drop_first()
+    { unimplemented!() }
+    #[verifier::external_body] pub fn vx_map_to_string(self) -> (r: VPieces<'a>) ensures r.items == self.items { unimplemented!() }
+    #[verifier::external_body] pub fn vx_filter_nonempty(self) -> (r: VPieces<'a>) ensures r.items == nonempty_of(self.items) { unimplemented!() }
+    #[verifier::external_body]
+    pub fn vx_collect(self) -> (r: Vec<VStr>)
+        ensures views_of(r@) == self.items, forall|i: int| 0 <= i < r@.len() ==> str_wf(#[trigger] r@[i]@)
+    { unimplemented!() }
+}
+pub trait VxOkOrS<T> { fn vx_ok_or_s(self) -> Result<T>; }
+impl<T> VxOkOrS<T> for Option<T> {
+    #[verifier::external_body]
+    fn vx_ok_or_s(self) -> (r: Result<T>) ensures self is Some ==> r is Ok && r->Ok_0 == self->Some_0, self is None ==> r is Err { unimplemented!() }
+}
